@@ -208,6 +208,35 @@ func (c05) Exec(p *Plan, dir string) *Result {
 			wit.Pump()
 			res.Probe("task-racing-unlink")
 			res.FP("unlink-race")
+			// whichever way the race went: if the task reaches the child, its answer is accepted once
+			// and a replay of it changes nothing
+			for k := 0; k < 3 && !ch.handed[nrid]; k++ {
+				checkin(par)
+			}
+			if ch.handed[nrid] && len(res.Violations) == 0 {
+				answer := func(delay int) []string {
+					var pb world.PB
+					pb.Int32(uint32(delay)).Int32(1)
+					before := TakeSnap(w, SnapOpts{Witness: wit, SkipTaskAnnouncements: true})
+					ch.d.Out = append(ch.d.Out, world.Pkg{Cmd: world.CmdSleep, RID: nrid, Body: pb.B})
+					checkin(ch)
+					wit.Pump()
+					var eff []string
+					for _, k := range before.Diff(TakeSnap(w, SnapOpts{Witness: wit, SkipTaskAnnouncements: true})) {
+						if !strings.HasSuffix(k, ".queue") {
+							eff = append(eff, k)
+						}
+					}
+					return eff
+				}
+				answer(800 + a.D%100)
+				ch.completed[nrid] = true
+				if eff := answer(900 + a.D%100); len(eff) > 0 {
+					res.Violate("C05", "effect-without-outstanding-task", "completed-id-after-task-raced-unlink:"+effectClass(eff),
+						fmt.Sprintf("agent %s: request %x was issued while the agent's link went away; after its final callback a replay of it changed: %s", ch.d.NameID(), nrid, strings.Join(eff, " ")), w.Sim)
+				}
+				res.Probe("raced-task-answered-and-replayed")
+			}
 		case "race":
 			o := outstanding(ag, true, false)
 			if len(o) == 0 || ag.parent != nil || len(ag.d.Children) > 0 {
